@@ -1,8 +1,8 @@
 #!/verif/.venv/bin/python
 # Replay of a solver counterexample against the unmodified code (no shims).
-# property=C15 kernel=drift label=k4:pulse_phase_compensates_drift
+# property=C15 kernel=l1 label=c15:buffer_length
 import sys
-sys.path[:0] = ["/repo/pulser-core", "/repo/pulser-simulation", "/verif"]
+sys.path[:0] = ['/repo' + "/pulser-core", '/repo' + "/pulser-simulation", "/verif"]
 from symx.replay import replay
-sys.exit(replay(check='checks.c15', kernel='drift', shape={'cfg': {'lim': 'R', 'ctrl': ['B']}, 'program': [['enable', 1.0, 0.0, 0.0], ['eom_pulse', 0.0], ['delay'], ['eom_pulse', 1.0], ['disable']], 'custom_buffer': 40, 'kmax': 12},
-                assignment={'d1/k': 2, 'd2/k': 2, 'd3/k': 2, 'buf#1.start': 0, 'buf#1.end': 3, 'buf#2.start': 0, 'buf#2.end': 3}, label='k4:pulse_phase_compensates_drift'))
+sys.exit(replay(check='checks.c15', kernel='l1', shape={'own': {'clock': 1, 'local': False, 'slots': ['pulseA'], 'mod': True, 'pj': 'derived', 'det_off': 0.0, 'eom': {'custom_buffer': True, 'blocks': []}}, 'op': ['enable_eom', 0.0], 'maxseq': True},
+                assignment={'max_sequence_duration': 10, 'own.min_duration': 3, 'own.tr': 2, 'own.eom_buffer': 2, 'own.eom_tr': 1, 'own.s0.dur': 3, 'buf#1.start': 0, 'buf#1.end': 0, 'buf#2.start': 0, 'buf#2.end': 0, 'buf#3.start': 0, 'buf#3.end': 0, 'buf#4.start': 0, 'buf#4.end': 0}, label='c15:buffer_length'))
